@@ -77,3 +77,109 @@ example : exS.active = true ∧ exS.hb.contains "n1" = true ∧ nodeExists exS "
 example : stillUp (step exS (.lapse "n1")) "n1" = [] ∧ getStatus (step exS (.lapse "n1")) 3 = some up := by decide
 
 end Eru.Props.C28
+
+namespace Eru.Props.C28
+open Eru.Cluster2.ND
+
+theorem dealMsg_nodes_any (n : String) (a : Bool) (s : St) (m : String) : nodeExists (dealMsg n a s) m = nodeExists s m := by
+  simp [nodeExists, (dealMsg_frame n a s).1]
+
+/-- **The history-level statement — exactly the predicate the oracle evaluates on the real
+watcher**: after ANY history of heartbeats, lapses (by deletion or expiry), workload creations,
+agent reports and watcher starts/stops, every workload in `obligations` is reported
+`running = false ∧ healthy = false`. -/
+theorem obligations_reported_down (evs : List Evt) : ∀ (s : St) (ob : List Nat),
+    (∀ i ∈ ob, getStatus s i = some down) →
+    ∀ i ∈ obligations evs s ob, getStatus (run s evs) i = some down := by
+  induction evs with
+  | nil => intro s ob h i hi; exact h i hi
+  | cons e rest ih =>
+    intro s ob h i hi
+    show getStatus (run (step s e) rest) i = some down
+    apply ih (step s e) _ _ i hi
+    intro j hj
+    cases e with
+    | heartbeat n => exact down_stable s _ j (h j hj) (by simp)
+    | create k n => exact down_stable s _ j (h j hj) (by simp)
+    | stopWatcher => exact down_stable s _ j (h j hj) (by simp)
+    | report k =>
+      have hj0 : j ∈ ob.filter (fun x => x != k) := hj
+      have hj' : j ∈ ob ∧ j ≠ k := by simpa [List.mem_filter] using hj0
+      exact down_stable s _ j (h j hj'.1) (fun e' => hj'.2 (by cases e'; rfl))
+    | lapse n =>
+      by_cases hc : (s.active && s.hb.contains n && nodeExists s n) = true
+      · have hj0 : j ∈ (if (s.active && s.hb.contains n && nodeExists s n) = true then ob ++ (onNode s n).map (·.id) else ob) := hj
+        have hj' : j ∈ ob ++ (onNode s n).map (·.id) := by rw [if_pos hc] at hj0; exact hj0
+        rcases List.mem_append.mp hj' with a | a
+        · exact down_stable s _ j (h j a) (by simp)
+        · obtain ⟨w, hw, e⟩ := List.mem_map.mp a
+          obtain ⟨hw1, hw2, hw3⟩ := (mem_onNode s n w).mp hw
+          simp only [Bool.and_eq_true] at hc
+          rw [← e]
+          exact lapse_marks_down s n hc.1.1 hc.1.2 hc.2 w hw1 hw2 hw3
+      · have hj0 : j ∈ (if (s.active && s.hb.contains n && nodeExists s n) = true then ob ++ (onNode s n).map (·.id) else ob) := hj
+        have hj' : j ∈ ob := by rw [if_neg hc] at hj0; exact hj0
+        exact down_stable s _ j (h j hj') (by simp)
+    | startWatcher =>
+      have hj' : j ∈ ob ++ (s.nodes.filter fun nd => !nd.test && !s.hb.contains nd.name).flatMap fun nd => (onNode s nd.name).map (·.id) := hj
+      rcases List.mem_append.mp hj' with a | a
+      · exact down_stable s _ j (h j a) (by simp)
+      · obtain ⟨nd, hnd, hin⟩ := List.mem_flatMap.mp a
+        obtain ⟨w, hw, e⟩ := List.mem_map.mp hin
+        obtain ⟨hw1, hw2, hw3⟩ := (mem_onNode s nd.name w).mp hw
+        have hf := (List.mem_filter.mp hnd)
+        simp only [Bool.and_eq_true, Bool.not_eq_true'] at hf
+        rw [← e]
+        exact init_covers_prior_lapse s nd hf.1 hf.2.1 hf.2.2 w hw1 hw2 hw3
+
+/-- from an initial state without reports: the obligations of the whole history -/
+theorem history_reported_down (s0 : St) (evs : List Evt) :
+    ∀ i ∈ obligations evs s0 [], getStatus (run s0 evs) i = some down :=
+  obligations_reported_down evs s0 [] (fun _ h => by cases h)
+
+/-- link with the decidable clause of the oracle: nothing on node `n` is "still up" iff every
+workload listed on it is reported down -/
+theorem stillUp_nil_iff (s : St) (n : String) :
+    stillUp s n = [] ↔ ∀ w ∈ onNode s n, getStatus s w.id = some down := by
+  simp only [stillUp, List.map_eq_nil_iff, List.filter_eq_nil_iff]
+  constructor
+  · intro h w hw; have := h w hw; simpa using this
+  · intro h w hw; simp [h w hw]
+
+/-- the `nameOk` guard is always met by workloads created through the cluster (names are
+`app_entry_suffix`): every workload the model's `create` event records has `nameOk = true` -/
+theorem run_nameOk (evs : List Evt) : ∀ (s : St), (∀ w ∈ s.wls, w.nameOk = true) → ∀ w ∈ (run s evs).wls, w.nameOk = true := by
+  induction evs with
+  | nil => intro s h; exact h
+  | cons e rest ih =>
+    intro s h
+    apply ih (step s e)
+    cases e with
+    | heartbeat n => simp only [step]; split <;> exact h
+    | lapse n =>
+      simp only [step]
+      split
+      · rw [(dealMsg_frame _ _ _).2.2.1]; exact h
+      · exact h
+    | create k n =>
+      intro w hw
+      rcases List.mem_cons.mp hw with e | e
+      · rw [e]
+      · exact h w e
+    | report k => exact h
+    | startWatcher => simp only [step, initNodeStatus]; rw [(initFold_frame _ _ _).2]; exact h
+    | stopWatcher => exact h
+
+/-- NOT covered by the property as implemented: a workload created on a node AFTER its lapse was
+handled is not marked down (nothing re-examines the node until its next lapse or a watcher restart) -/
+theorem created_after_lapse_not_marked :
+    getStatus (run { nodes := [⟨"n1", false⟩], hb := ["n1"], active := true }
+      [.lapse "n1", .create 1 "n1", .report 1]) 1 = some up ∧
+    obligations [.lapse "n1", .create 1 "n1", .report 1] { nodes := [⟨"n1", false⟩], hb := ["n1"], active := true } [] = [] := by
+  decide
+
+/-- non-vacuity of the history theorem -/
+example : obligations [.heartbeat "n1", .create 1 "n1", .report 1, .create 2 "n1", .startWatcher, .lapse "n1"]
+    { nodes := [⟨"n1", false⟩] } [] = [2, 1] := by decide
+
+end Eru.Props.C28
